@@ -45,7 +45,7 @@ func init() {
 		Runs: []RunDef{
 			c03("H_int_arith", nil), c03("H_int_unary", nil), c03("H_int_div", nil), c03("H_float_arith", nil), c03("H_float_rem", nil),
 			c03("H_mixed_arith", nil), c03("H_shift", nil), c03("H_cmp_int", nil), c03("H_cmp_float", nil), c03("H_cmp_mixed", nil), c03("H_cmp_bool", nil),
-			c03("H_cmp_numeric_strings", nil),
+			c03("H_cmp_numeric_strings", nil), c03("H_cmp_literal", nil),
 			c03("H_cmp_string", map[string]int{"n": 0, "m": 0}), c03("H_cmp_string", map[string]int{"n": 1, "m": 0}), c03("H_cmp_string", map[string]int{"n": 0, "m": 1}),
 			c03("H_cmp_string", map[string]int{"n": 1, "m": 1}), c03("H_cmp_string", map[string]int{"n": 2, "m": 1}), c03("H_cmp_string", map[string]int{"n": 1, "m": 2}),
 			c03("H_cmp_string", map[string]int{"n": 2, "m": 2}),
@@ -65,7 +65,7 @@ func init() {
 		Pkg: "verif/harness/c02",
 		Runs: []RunDef{c02("H_for_nested"), c02("H_while_nested"), c02("H_foreach"), c02("H_switch_in_for"), c02("H_func_defaults"), c02("H_static_counter"),
 			c02("H_locals_isolated"), c02("H_if_chain"), c02("H_match"), c02("H_counter_escapes"), c02("H_return_from_loop"), c02("H_repeated_statements"),
-			c02("H_loop_body_exits"), {Fn: "H_static_forms", Fuel: 30_000_000, Tier: "quick", Reach: []string{"end"}}, c02("H_static_recursion"), c02("H_switch_labels"), c02("H_foreach_object_write"), c02("H_for_forms"), c02("H_no_return"), c02("H_foreach_body_writes"), c02("H_foreach_nested_same")},
+			c02("H_loop_body_exits"), {Fn: "H_static_forms", Fuel: 30_000_000, Tier: "quick", Reach: []string{"end"}}, c02("H_static_recursion"), c02("H_switch_labels"), c02("H_foreach_object_write"), c02("H_for_forms"), c02("H_no_return"), c02("H_foreach_body_writes"), c02("H_foreach_nested_same"), c02("H_match_kinds")},
 		Rule:        rule + "; each template is parsed by the real parser on every path and run by the real evaluators with symbolic loop limits/trigger indexes in [-1,3] (unbounded ints where no loop depends on them); exit statement kind and level are enumerated by solver-driven case split; the oracle is the same algorithm in Go executed in the same path; H_loop_body_exits puts break/continue under an if in the middle of the body of every loop kind; H_static_forms: 6 update forms x 3 ways of leaving the function x 3 placements of the static declaration; H_static_recursion: frames of a recursive function share the static; H_switch_labels: duplicate / expression labels and default in every position; H_foreach_object_write: a foreach over an object whose body writes that object terminates and enumerates the entries present at its start",
 		Assumptions: []string{"switch fall-through into the next case and a bare 'continue' directly inside switch are not asserted (docs are silent / PHP-specific)"},
 		Outside:     []string{"programs outside the 16 templates (H_switch_labels: three cases with labels drawn from {1,2,3} with repetition, default clause in every position, literal and expression labels, symbolic subject)", "loop counts > 3, nesting depth > 2", "generators, goto, strings in conditions"},
@@ -220,6 +220,7 @@ func init() {
 			{Fn: "H_enum_order", Fuel: 30_000_000, Tier: "quick", Reach: []string{"end"}},
 			{Fn: "H_file_programs", Fuel: 30_000_000, Tier: "quick", Reach: []string{"end"}},
 			{Fn: "H_diagnostics_repeat", Fuel: 30_000_000, Tier: "quick", Reach: []string{"end"}},
+			{Fn: "H_array_builtins", Fuel: 30_000_000, Tier: "quick", Reach: []string{"end"}, NativeRepeat: 300},
 		},
 		Rule:        rule + "; Go's map iteration order is the adversary and is made a symbolic choice: every range over a Go map with 2..3 entries executed inside origami code (up to 4 such ranges per path) takes its order from a fresh symbolic permutation, all orders are explored as sibling paths, and the output must equal the insertion-order run of the same template in the same path; OrderedMap Set/Delete histories against a slice model; all ordered pairs (A then B vs B alone) of the templates on fresh VMs in one engine process; H_enum_order: explicit insertion-order oracle for objects and string-keyed arrays over every order of three names; H_include: two programs including the same file",
 		Assumptions: []string{"maps with more than 3 entries and the 5th and later permutable ranges of a path iterate in insertion order"},
@@ -239,6 +240,7 @@ func init() {
 			c09("H_two_consumers", nil, "quick", 2),
 			c09("H_close_race", nil, "quick", 2),
 			c09("H_close_accounting", nil, "quick", 2),
+			c09("H_two_senders_late_receiver", nil, "quick", 2),
 			c09("H_close_accounting", nil, "thorough", 3),
 			c09("H_pc", map[string]int{"producers": 2}, "thorough", 2),
 			c09("H_two_consumers", nil, "thorough", 3),
@@ -246,7 +248,7 @@ func init() {
 			c09("H_close_drain", nil, "thorough", 4),
 		},
 		Rule:        rule + "; goroutines of the harness and the real Channel methods run as engine threads under a baton; at every visible operation (go, chan send/recv/close/len, WaitGroup ops, accesses to Channel.closed) the scheduler decision is a recorded choice and all alternatives are explored, with preemption bounding; Go channels are modelled exactly (FIFO buffer, rendezvous with parked senders and receivers, select with nondeterministic choice among ready cases, close wakes parked senders with a panic), sync.Mutex and sync.Cond at contract level; a vector-clock happens-before relation flags unordered conflicting accesses to Channel.closed; capacity 0..2 enumerated, payloads symbolic; H_close_accounting: two senders, optional receive, close, drain while the senders return: a send reports success iff its value is received exactly once, and once a receive has reported closed-and-drained no value appears",
-		Assumptions: []string{"bounded: <= 3 goroutines besides main, <= 2 channel operations per goroutine, preemption bound 2 (1 for two producers) in the quick tier, 2-4 in the thorough tier", "schedule counterexamples replay deterministically in the engine; native confirmation by the directed twin N_close_parked (sender parked on an unbuffered channel, then Close)"},
+		Assumptions: []string{"bounded: <= 3 goroutines besides main, <= 2 channel operations per goroutine, preemption bound 2 (1 for two producers) in the quick tier, 2-4 in the thorough tier", "sync.Cond model: waiters queue in arrival order, Broadcast wakes all, Signal wakes the longest-waiting one (Go runtime notifyList order) and nobody if none waits; no spurious wake-ups", "schedule counterexamples replay deterministically in the engine; native confirmation by the directed twin N_close_parked (sender parked on an unbuffered channel, then Close)"},
 		Outside:     []string{"more than 4 goroutines / 2 operations each, capacities 3-4 (H_close_accounting: two senders, one receive, close, drain at capacities 0 and 1: a send reports success iff its value is received exactly once)", "script-level spawn closures sharing a frame", "seeded stress under the race detector (different technique family)"},
 	})
 
